@@ -86,6 +86,9 @@ def _vm_goal(case, out):
             return "remove_empty %s %s%%nat = %s" % (_vm_descs(p[2]), p[1], _vm_descs(o[1]))
         if p[0] == "F":
             return "filter_referrers %s %s = %s" % (_vm_descs(p[2]), p[1], _vm_descs(o[1]))
+        if p[0] == "L":
+            r = "None" if p[2] == "none" else "(Some %s)" % _vm_descs(p[2])
+            return "map dkey (list_referrers %s %s) = %s" % (r, p[1], _vm_ns(o[1]))
         if p[0] == "T":
             ds = ["(mkSubj %s %s %s)" % (x.split(":")[1], x.split(":")[0], x.split(":")[2]) for x in p[1].split(",")]
             return "tag_classes %s = %s" % (_vm_lst(ds, "subject"), _vm_nats(o[1]))
@@ -132,7 +135,7 @@ def _c14_vm_sample(d, tier, coq, build, want=300):
         for l in f:
             i, _, o = l.rstrip("\n").partition(" ")
             outs[i] = o
-    quota = {"A": 90, "R": 20, "F": 20, "T": 20, "K": 10, "D": 20, "M": 70, "X": 70}
+    quota = {"A": 90, "R": 20, "F": 20, "T": 20, "K": 10, "D": 20, "M": 70, "X": 70, "L": 20}
     total = collections.Counter()
     with open(os.path.join(d, "cases.txt")) as f:
         for l in f:
